@@ -37,12 +37,15 @@ struct Shape {
     pend_del: bool,
     lex: bool,
     vec: bool,
+    /// also commit a chunked document (>= 2400 chars: payload-less parent + chunk frames), a no_raw put (empty stored
+    /// payload) and a payload-reusing update
+    rich: bool,
 }
 
 impl Shape {
     fn to_json(&self) -> Value {
         json!({"seed": self.seed, "n1": self.n1, "n2": self.n2, "ndel": self.ndel, "npend": self.npend,
-               "pend_del": self.pend_del, "lex": self.lex, "vec": self.vec})
+               "pend_del": self.pend_del, "lex": self.lex, "vec": self.vec, "rich": self.rich})
     }
     fn from_json(v: &Value) -> Shape {
         Shape {
@@ -50,6 +53,7 @@ impl Shape {
             n2: v["n2"].as_u64().unwrap_or(0) as usize, ndel: v["ndel"].as_u64().unwrap_or(0) as usize,
             npend: v["npend"].as_u64().unwrap_or(0) as usize, pend_del: v["pend_del"].as_bool().unwrap_or(false),
             lex: v["lex"].as_bool().unwrap_or(true), vec: v["vec"].as_bool().unwrap_or(false),
+            rich: v["rich"].as_bool().unwrap_or(false),
         }
     }
     fn key(&self) -> String { self.to_json().to_string() }
@@ -122,14 +126,43 @@ fn build_file(path: &Path, sh: &Shape) -> Result<Built, String> {
         Ok(())
     };
     let mut deleted: Vec<usize> = Vec::new();
-    for _ in 0..sh.n1 { put(&mut mem, &mut rng, &mut puts)?; }
+    // extra committed frames of a rich shape: uri -> digest of the canonical payload
+    let mut extra: Vec<(String, String)> = Vec::new();
+    for i in 0..sh.n1 {
+        put(&mut mem, &mut rng, &mut puts)?;
+        if sh.rich && i == 0 {
+            // a long plain-text document: stored as a parent frame without payload followed by its chunk frames
+            let mut doc = String::new();
+            let mut n = 0u32;
+            while doc.len() < 3600 {
+                n += 1;
+                doc.push_str(&format!("Entry {n} of the survey journal notes ridge {} and {} samples near the {} station. ", n * 7 + 3, n * 13 + 5, words(&mut rng, 2)));
+            }
+            mem.put_bytes_with_options(doc.as_bytes(), put_opts(1_700_000_100, "mv2://c21/doc")).map_err(|e| format!("put doc: {e}"))?;
+            extra.push(("mv2://c21/doc".into(), b3short(doc.as_bytes())));
+            // a text-only put: nothing stored as raw payload
+            let mut o = put_opts(1_700_000_101, "mv2://c21/noraw");
+            o.no_raw = true;
+            let text = format!("text only note {}", words(&mut rng, 12));
+            mem.put_bytes_with_options(text.as_bytes(), o).map_err(|e| format!("put no_raw: {e}"))?;
+        }
+    }
     mem.commit().map_err(|e| format!("commit 1: {e}"))?;
+    let mut force_commit2 = false;
+    if sh.rich && sh.ndel == 0 {
+        // payload-reusing update of the first note: a new frame that points at the stored bytes of the old one
+        let id = mem.frame_by_uri("mv2://c21/0").map_err(|e| format!("lookup 0: {e}"))?.id;
+        let mut o = PutOptions::default();
+        o.title = Some("retitled".into());
+        mem.update_frame(id, None, o, None).map_err(|e| format!("update: {e}"))?;
+        force_commit2 = true;
+    }
     for _ in 0..sh.n2 { put(&mut mem, &mut rng, &mut puts)?; }
     for d in 0..sh.ndel.min(sh.n1) {
         mem.delete_frame(d as u64).map_err(|e| format!("delete {d}: {e}"))?;
         deleted.push(d);
     }
-    if sh.n2 > 0 || sh.ndel > 0 { mem.commit().map_err(|e| format!("commit 2: {e}"))?; }
+    if sh.n2 > 0 || sh.ndel > 0 || force_commit2 { mem.commit().map_err(|e| format!("commit 2: {e}"))?; }
     let ncommitted = puts.len();
     let mut out = Built::default();
     for (i, p) in puts.iter().enumerate() { out.frames.push((!deleted.contains(&i), p.2)); }
@@ -139,9 +172,10 @@ fn build_file(path: &Path, sh: &Shape) -> Result<Built, String> {
     if sh.pend_del && sh.n1 > 0 {
         let victim = sh.n1 - 1;
         if !deleted.contains(&victim) {
-            mem.delete_frame(victim as u64).map_err(|e| format!("pending delete {victim}: {e}"))?;
+            let vid = if sh.rich { mem.frame_by_uri(&format!("mv2://c21/{victim}")).map_err(|e| format!("lookup victim: {e}"))?.id } else { victim as u64 };
+            mem.delete_frame(vid).map_err(|e| format!("pending delete {vid}: {e}"))?;
             pend_deleted.push(victim);
-            out.pending.push(format!("d{victim}"));
+            out.pending.push(format!("d{vid}"));
         }
     }
     for (i, p) in puts.iter().enumerate() {
@@ -149,6 +183,7 @@ fn build_file(path: &Path, sh: &Shape) -> Result<Built, String> {
         if i < ncommitted { out.committed.insert(p.0.clone(), p.1.clone()); if p.3 { out.emb_committed += 1; } }
         if !pend_deleted.contains(&i) { out.expect.insert(p.0.clone(), p.1.clone()); if p.3 { out.emb_expect += 1; } }
     }
+    let _ = extra; // the document's canonical payload is normalised text: its reference digest is taken from the undamaged file
     if !out.pending.is_empty() {
         // crash: the handle is never dropped (Drop would commit); the process exits right after
         std::mem::forget(mem);
@@ -227,7 +262,7 @@ fn observe(path: &Path, tag: &str) -> Value {
         for f in &frames {
             if f.status != FrameStatus::Active { continue; }
             nactive += 1;
-            let key = f.uri.clone().unwrap_or_else(|| format!("#{}", f.id));
+            let key = format!("{}|{}", f.id, f.uri.clone().unwrap_or_else(|| "-".into()));
             let dig = match mem.frame_canonical_payload(f.id) {
                 Ok(b) => { ids.push(format!("{}:{}", f.id, dig32(&b))); b3short(&b) }
                 Err(e) => { ids.push(format!("{}:{}", f.id, errkind(&e))); errkind(&e) }
@@ -459,7 +494,12 @@ impl Case {
     fn fault_names(&self) -> String { if self.faults.is_empty() { "none".into() } else { self.faults.iter().map(|d| d.name()).collect::<Vec<_>>().join("+") } }
 }
 
-struct Base { bytes: Vec<u8>, lay: Layout, built: Built }
+struct Base {
+    bytes: Vec<u8>, lay: Layout, built: Built,
+    /// what opening the undamaged file shows (pending records replayed): `id|uri` -> digest of the canonical payload of
+    /// EVERY active frame (document parents are reassembled from their chunks), and how many carry an embedding
+    ideal: BTreeMap<String, String>, ideal_emb: usize,
+}
 
 fn build_base(dir: &Path, sh: &Shape) -> Result<Base, String> {
     let path = dir.join(format!("base-{}.mv2", b3short(sh.key().as_bytes())));
@@ -474,9 +514,22 @@ fn build_base(dir: &Path, sh: &Shape) -> Result<Base, String> {
         emb_committed: v["emb_committed"].as_u64().unwrap_or(0) as usize,
     };
     let bytes = std::fs::read(&path).map_err(|e| e.to_string())?;
+    let o = run_child(&["observe".into(), path.to_string_lossy().to_string()])?;
     let _ = std::fs::remove_file(&path);
+    if !o["open"]["error"].is_null() { return Err(format!("undamaged base does not open: {}", o["open"]["error"])); }
+    let ideal: BTreeMap<String, String> = serde_json::from_value(o["open"]["active"].clone()).map_err(|e| e.to_string())?;
+    if ideal.values().any(|d| d.starts_with("err:")) { return Err(format!("undamaged base has unreadable frames: {ideal:?}")); }
+    // the builder's acknowledgements must be in that view
+    for (u, d) in &built.expect {
+        if !ideal.iter().any(|(k, v)| k.split_once('|').map(|x| x.1) == Some(u.as_str()) && v == d) {
+            return Err(format!("undamaged base does not show acknowledged frame {u}"));
+        }
+    }
+    if sh.rich && !ideal.keys().any(|k| k.ends_with("|mv2://c21/doc")) { return Err("undamaged base does not show the chunked document".into()); }
+    if sh.rich && o["open"]["nactive"].as_u64().unwrap_or(0) < 5 { return Err("the long document was not stored as parent + chunk frames".into()); }
+    let ideal_emb = o["open"]["emb"].as_u64().unwrap_or(0) as usize;
     let lay = layout(&bytes)?;
-    Ok(Base { bytes, lay, built })
+    Ok(Base { bytes, lay, built, ideal, ideal_emb })
 }
 
 /// the run of one case on the real code: damaged copy -> child
@@ -495,6 +548,9 @@ fn run_real(dir: &Path, idx: usize, base: &Base, c: &Case) -> Option<RealRun> {
     Some(RealRun { what, flags: flags_of(&base.lay, &c.faults), stale_footer, obs })
 }
 
+fn model_frames_toc(lay: &Layout) -> String {
+    if lay.toc.frames.is_empty() { "-".into() } else { lay.toc.frames.iter().map(|f| format!("{}:{}:0", f.id, if f.status == FrameStatus::Active { 1 } else { 0 })).collect::<Vec<_>>().join(",") }
+}
 fn model_frames(b: &Built) -> String {
     if b.frames.is_empty() { "-".into() } else { b.frames.iter().enumerate().map(|(i, (a, d))| format!("{i}:{}:{d}", if *a { 1 } else { 0 })).collect::<Vec<_>>().join(",") }
 }
@@ -561,6 +617,7 @@ fn evaluate(c: &Case, base: &Base, rr: &RealRun, drv: &mut Option<Driver>, sum: 
     for d in &c.faults { sum.branch(&format!("fault-{}", d.name())); }
     if c.faults.is_empty() { sum.branch("fault-none"); }
     if !base.built.pending.is_empty() { sum.branch("crash-left-pending"); }
+    if c.shape.rich { sum.branch("chunked-document-and-empty-payload-frames"); if c.bits & 8 != 0 && c.bits & 16 == 0 { sum.branch("vacuum-over-empty-payload-frames"); } }
     if dry { sum.branch("dry-run"); }
     if c.bits & 8 != 0 { sum.branch("vacuum"); }
     if c.bits & 7 != 0 { sum.branch("forced-rebuild"); }
@@ -572,7 +629,8 @@ fn evaluate(c: &Case, base: &Base, rr: &RealRun, drv: &mut Option<Driver>, sum: 
     let mut model_same = false;
     let mut m1: Option<ModelRun> = None;
     if let (Some(d), false) = (drv.as_mut(), rr.stale_footer) {
-        let file0 = format!("{} {} {}", model_frames(&base.built), model_pending(&base.built), rr.flags);
+        // rich shapes: the model gets the committed TOC's frame list without contents (contents are the oracle's business)
+        let file0 = format!("{} {} {}", if c.shape.rich { model_frames_toc(&base.lay) } else { model_frames(&base.built) }, model_pending(&base.built), rr.flags);
         match ask_model(d, c.bits, &file0) {
             Err(a) => { sum.disagreement("model driver answer unreadable", case_json.clone(), &a, ""); return; }
             Ok(m) => {
@@ -591,7 +649,7 @@ fn evaluate(c: &Case, base: &Base, rr: &RealRun, drv: &mut Option<Driver>, sum: 
                     let time_corrupt_left = m.file.split(' ').nth(2).map(|f| f.as_bytes().get(4) == Some(&b'c')).unwrap_or(false);
                     if rvc != m.verify && !(time_corrupt_left && m.verify == "failed" && rvc == "passed") { diffs.push(format!("verify after first run: impl {rv} model {}", m.verify)); }
                     if time_corrupt_left && rvc == "passed" { sum.branch("verify-misses-time-index-damage"); }
-                    if real_opens {
+                    if real_opens && !c.shape.rich {
                         let ids = o1["open"]["ids"].as_str().unwrap_or("");
                         let ids = if ids.is_empty() { "-" } else { ids };
                         if ids != m.logical { diffs.push(format!("active frames after first run: impl {ids} model {}", m.logical)); }
@@ -618,21 +676,29 @@ fn evaluate(c: &Case, base: &Base, rr: &RealRun, drv: &mut Option<Driver>, sum: 
     }
 
     // ---------------------------------------------------------------- oracle (independent of the model)
-    let expect = if has_wal { &base.built.committed } else { &base.built.expect };
     let mut fails: Vec<(&'static str, String)> = Vec::new();
     let act = |o: &Value| -> Option<BTreeMap<String, String>> { if o["open"]["error"].is_null() { serde_json::from_value(o["open"]["active"].clone()).ok() } else { None } };
+    // "never removes or alters an active frame": every active frame (id, uri) with the digest of its canonical payload,
+    // document parents reassembled from their chunks, against what opening the undamaged file shows
+    let altered = |a: &BTreeMap<String, String>| -> Option<String> {
+        if has_wal {
+            // pending records are gone with the zeroed WAL (outside the quantifier): the committed acknowledgements must be there
+            let lost: Vec<&String> = base.built.committed.iter().filter(|(u, d)| !a.iter().any(|(k, v)| k.split_once('|').map(|x| x.1) == Some(u.as_str()) && v == *d)).map(|(u, _)| u).collect();
+            let unreadable: Vec<&String> = a.iter().filter(|(_, v)| v.starts_with("err:")).map(|(k, _)| k).collect();
+            if lost.is_empty() && unreadable.is_empty() { None } else { Some(format!("committed frames lost/altered {lost:?}, unreadable {unreadable:?}")) }
+        } else if a != &base.ideal {
+            let lost: Vec<String> = base.ideal.iter().filter(|(k, d)| a.get(*k) != Some(*d)).map(|(k, _)| format!("{k}={}", a.get(k).cloned().unwrap_or_else(|| "absent".into()))).collect();
+            let extra: Vec<&String> = a.keys().filter(|k| !base.ideal.contains_key(*k)).collect();
+            Some(format!("frames lost/altered {lost:?}, unexpected {extra:?}"))
+        } else { None }
+    };
     if st1 == "panic" { fails.push(("doctor-panics", format!("Memvid::doctor panicked: {}", d1["msg"].as_str().unwrap_or("")))); }
     // preservation: whatever doctor reports, the acknowledged active frames are what a reader gets afterwards
     if let Some(a) = act(o1) {
-        if &a != expect {
-            let lost: Vec<&String> = expect.keys().filter(|k| a.get(*k) != expect.get(*k)).collect();
-            let extra: Vec<&String> = a.keys().filter(|k| !expect.contains_key(*k)).collect();
-            fails.push(("active-frames-altered", format!("after doctor ({st1}) frames lost/altered {lost:?}, unexpected {extra:?}")));
-        }
-        let emb_expect = if has_wal { base.built.emb_committed } else { base.built.emb_expect };
+        if let Some(w) = altered(&a) { fails.push(("active-frames-altered", format!("after doctor ({st1}) {w}"))); }
         let vec_fault = c.faults.iter().any(|d| matches!(d, Damage::Index(w, _) if w % 3 == 2));
-        if !vec_fault && o1["open"]["emb"].as_u64().unwrap_or(0) as usize != emb_expect {
-            fails.push(("rebuild-vec-index-discards-embeddings", format!("{} of {} stored embeddings readable after doctor ({st1})", o1["open"]["emb"], emb_expect)));
+        if !vec_fault && !has_wal && o1["open"]["emb"].as_u64().unwrap_or(0) as usize != base.ideal_emb {
+            fails.push(("rebuild-vec-index-discards-embeddings", format!("{} of {} stored embeddings readable after doctor ({st1})", o1["open"]["emb"], base.ideal_emb)));
         }
     }
     if dry {
@@ -653,7 +719,7 @@ fn evaluate(c: &Case, base: &Base, rr: &RealRun, drv: &mut Option<Driver>, sum: 
         if s2 != want2 { fails.push(("second-run-not-clean", format!("second run with the same options reported {s2}, expected {want2}"))); }
         if !o2.is_null() {
             match act(o2) {
-                Some(a) => if &a != expect { fails.push(("active-frames-altered", "second doctor run altered the active frames".into())); },
+                Some(a) => if let Some(w) = altered(&a) { fails.push(("active-frames-altered", format!("second doctor run: {w}"))); },
                 None => fails.push(("not-healed", format!("file does not open after the second run: {}", o2["open"]["error"]))),
             }
             if o2["verify"] != "passed" { fails.push(("not-healed", format!("verify(deep) after the second run: {}", o2["verify"]))); }
@@ -692,11 +758,16 @@ fn evaluate(c: &Case, base: &Base, rr: &RealRun, drv: &mut Option<Driver>, sum: 
 fn run_all(cases: &[Case], dir: &Path, jobs: usize, drv: &mut Option<Driver>, sum: &mut Summary, known: &[String], verbose: bool) {
     // bases (one build per distinct shape)
     let mut bases: BTreeMap<String, Arc<Base>> = BTreeMap::new();
+    let mut failed: Vec<String> = Vec::new();
     for c in cases {
-        if bases.contains_key(&c.shape.key()) { continue; }
+        if bases.contains_key(&c.shape.key()) || failed.contains(&c.shape.key()) { continue; }
         match build_base(dir, &c.shape) {
             Ok(b) => { bases.insert(c.shape.key(), Arc::new(b)); }
-            Err(e) => { sum.notes.push(format!("base build failed for {}: {e}", c.shape.key())); }
+            Err(e) => {
+                // a shape that cannot be built silently removes coverage: report it as a broken tie, never skip it
+                failed.push(c.shape.key());
+                sum.disagreement(&format!("base file could not be built/observed: {e}"), c.shape.to_json(), "", &e);
+            }
         }
     }
     let cases_arc: Arc<Vec<Case>> = Arc::new(cases.to_vec());
@@ -744,7 +815,7 @@ fn single_faults(rng: &mut Rng) -> Vec<Damage> {
 fn gen_shape(rng: &mut Rng) -> Shape {
     let n1 = rng.usize(1, 4);
     Shape { seed: rng.below(1 << 20), n1, n2: rng.usize(0, 2), ndel: if rng.chance(1, 3) { rng.usize(1, n1) } else { 0 },
-            npend: if rng.chance(1, 2) { rng.usize(1, 3) } else { 0 }, pend_del: rng.chance(1, 4), lex: true, vec: rng.chance(2, 3) }
+            npend: if rng.chance(1, 2) { rng.usize(1, 3) } else { 0 }, pend_del: rng.chance(1, 4), lex: true, vec: rng.chance(2, 3), rich: rng.chance(1, 2) }
 }
 
 fn main() {
@@ -763,7 +834,7 @@ fn main() {
          frame list compared with the Lean model fed the abstract condition; non-trivial = damaged or crash-left file; \
          distinct = shape + damage + options");
     sum.expect_branches(&["crash-left-pending", "fault-hdr-ptr", "fault-hdr-tocsum", "fault-toc-sum", "fault-footer-magic", "fault-footer-hash",
-        "fault-index-time", "fault-index-lex", "fault-index-vec", "dry-run", "vacuum", "forced-rebuild", "status-healed", "status-clean", "oracle-held"]);
+        "fault-index-time", "fault-index-lex", "fault-index-vec", "dry-run", "vacuum", "vacuum-over-empty-payload-frames", "forced-rebuild", "status-healed", "status-clean", "oracle-held"]);
     let dir = scratch();
     if args.mode == "replay" {
         let case = load_replay(args.replay_file.as_ref().expect("replay file"));
@@ -775,9 +846,9 @@ fn main() {
         sum.finish(&args);
     }
     let mut rng = Rng::new(args.seed);
-    let sh_clean = Shape { seed: 11, n1: 3, n2: 2, ndel: 1, npend: 0, pend_del: false, lex: true, vec: true };
-    let sh_pend = Shape { seed: 12, n1: 2, n2: 0, ndel: 0, npend: 2, pend_del: true, lex: true, vec: true };
-    let sh_plain = Shape { seed: 13, n1: 2, n2: 1, ndel: 0, npend: 1, pend_del: false, lex: true, vec: false };
+    let sh_clean = Shape { seed: 11, n1: 3, n2: 2, ndel: 1, npend: 0, pend_del: false, lex: true, vec: true, rich: true };
+    let sh_pend = Shape { seed: 12, n1: 2, n2: 0, ndel: 0, npend: 2, pend_del: true, lex: true, vec: true, rich: false };
+    let sh_plain = Shape { seed: 13, n1: 2, n2: 1, ndel: 0, npend: 1, pend_del: false, lex: true, vec: false, rich: true };
     let mut cases: Vec<Case> = Vec::new();
     // fixed corpus: the witnesses of the recorded defects first
     cases.push(Case { shape: sh_pend.clone(), faults: vec![], bits: 0 });                          // crash-left file, default options
@@ -789,6 +860,7 @@ fn main() {
     cases.push(Case { shape: sh_plain.clone(), faults: vec![Damage::Wal], bits: 0 });               // outside the quantifier
     cases.push(Case { shape: sh_pend.clone(), faults: vec![Damage::TocSum(1)], bits: 16 });
     cases.push(Case { shape: sh_clean.clone(), faults: vec![Damage::Index(0, 3)], bits: 9 });       // vacuum + forced time rebuild
+    cases.push(Case { shape: sh_plain.clone(), faults: vec![Damage::HdrPtr(3)], bits: 8 });         // vacuum over a chunked document + payload-reusing update
     let shapes_quick = [sh_clean.clone(), sh_pend.clone(), sh_plain.clone()];
     let n = if args.thorough { 320 } else { 10 };
     let mut shapes: Vec<Shape> = shapes_quick.to_vec();
